@@ -214,10 +214,16 @@ func (c *FileCache[MetadataT]) Cache(key CacheKey, data io.Reader, expires time.
 	}
 
 	c.mu.Lock()
+	oldMeta, overwritten := c.entriesMetadata[key]
 	c.entriesMetadata[key] = meta
 	c.mu.Unlock()
 
-	incrementCacheEntries()
+	if overwritten {
+		// The key was already cached: the old file is replaced, so only its size goes away.
+		decrementCacheSize(&c.byteSize, oldMeta.Size)
+	} else {
+		incrementCacheEntries()
+	}
 	addCacheSize(&c.byteSize, fileSize)
 
 	slog.Debug("Successfully cached data", "key", key.Hex, "size", fileSize)
